@@ -29,6 +29,7 @@ type c20Case struct {
 	ReadLimit  int       `json:"read_limit"`  // bytes/s towards clients (0 = none)
 	WriteLimit int       `json:"write_limit"` // bytes/s accepted from clients (0 = none)
 	Conns      []c20Conn `json:"conns"`
+	PP         bool      `json:"proxy_protocol"` // the listener also expects a PROXY protocol header
 	WOne       int       `json:"w_one"`
 	WRand      int       `json:"w_rand"`
 }
@@ -88,6 +89,7 @@ func genC20(t *tape.Tape, tier string) any {
 			c.Conns = append(c.Conns, c20Conn{Kind: "trickle-up", Bytes: 50 + t.Intn(100)}) // Bytes = pause between bytes in ms
 		}
 	}
+	c.PP = t.Chance(1, 4)
 	c.WOne = 0
 	c.WRand = t.Pick(3, 2) * 2
 	return c
@@ -252,6 +254,9 @@ func runC20(env *core.Env, ci any) {
 		cfg.ProxyLocalhost = forwarder.AllowProxyLocalhost
 		cfg.ReadLimit = forwarder.SizeSuffix(c.ReadLimit)
 		cfg.WriteLimit = forwarder.SizeSuffix(c.WriteLimit)
+		if c.PP {
+			cfg.ProxyProtocolConfig = &forwarder.ProxyProtocolConfig{ReadHeaderTimeout: 5 * time.Second}
+		}
 	}})
 	if err != nil {
 		env.Fail("harness-start", "", "start: %v", err)
@@ -302,6 +307,9 @@ func runC20(env *core.Env, ci any) {
 						return
 					}
 					conn := raw.(*simnet.Conn)
+					if c.PP {
+						fmt.Fprintf(conn, "PROXY TCP4 198.51.100.%d 203.0.113.9 %d 3128\r\n", 10+i%200, 41000+j)
+					}
 					fmt.Fprintf(conn, "GET http://%s.ok.example/%s HTTP/1.1\r\nHost: %s.ok.example\r\nConnection: close\r\n\r\n", tok, tok, tok)
 					br := bufio.NewReaderSize(conn, 64<<10)
 					m, err := h1.ReadResponseHead(br)
@@ -348,6 +356,9 @@ func runC20(env *core.Env, ci any) {
 			}
 			conn := raw.(*simnet.Conn)
 			defer conn.Close()
+			if c.PP {
+				fmt.Fprintf(conn, "PROXY TCP4 198.51.100.%d 203.0.113.9 %d 3128\r\n", 10+i%200, 40000+i)
+			}
 			br := bufio.NewReaderSize(conn, 64<<10)
 			readCounted := func(want int, id uint64) bool {
 				buf := make([]byte, 32<<10)
